@@ -240,7 +240,7 @@ func C19() *runner.Property {
 			}
 			nr, cnt := 24, 150
 			if tier == "thorough" {
-				nr, cnt = 240, 600
+				nr, cnt = 1600, 600
 			}
 			for i := 0; i < nr; i++ {
 				kk := []string{"bytes", "bytes", "int4", "int8"}[i%4]
